@@ -1,7 +1,7 @@
 SPECIFICATION FairSpec
 CONSTANTS
   Kinds = {"d", "d2", "ad", "aad", "r", "ar", "dc", "adc", "adx"}
-  MaxLen = 3
+  MaxLen = 2
   FaultModes = {"ee", "ew", "we", "ww"}
 ACTION_CONSTRAINT StartWhenPolled
 INVARIANT TypeOK
